@@ -9,13 +9,14 @@ TRUSTED = ["T-STD: bisect returns a local boundary index on any list and the par
            "SM_inv: the engine's state list is the fold of the state-machine step over the merged events (checked here only through the bounded stand-in)",
            "pyvc VC generator; z3/cvc5"]
 ASSUMPTIONS = ["numerical accuracy (1e-9 s) is not decided: floats are treated as reals",
-               "_coalesce_warps and _retime_events are covered by the bounded stand-in only (not brought under loop invariants in this session)"]
+               "_retime_events (merge order, building the state list) is covered by the bounded stand-in only"]
 EXPLANATION = ("Proved (SMT, all inputs): the seven EventTag values are ordered as the statement needs (closed term); TaggedEvent.__lt__ is the lexicographic "
                "(beat, tag) order; TimingState.time_until is the statement's formula (zero inside a warp else 60/BPM per beat, plus the pause exactly when the "
                "state starts a stop/delay and the asked tag is an END tag); TimingStateMachine.advance appends exactly the next state of the recurrence; time_at "
-               "and bpm_at take the last state at or before (beat, tag) and extrapolate from it. Bounded (never counted as proved): that the recurrence the engine "
-               "builds (_coalesce_warps, _retime_events: union of warps, merge order) equals the statement's timeline, monotonicity, offset shift, redundant-BPM "
+               "and bpm_at take the last state at or before (beat, tag) and extrapolate from it; _coalesce_warps produces strictly alternating WARP/WARP_END pairs "
+               "that cover exactly the union of the warp segments (loop invariant with universally quantified conjuncts proved by single-instance skolemisation). Bounded (never counted as proved): that the recurrence the engine "
+               "builds (_retime_events: merge order, state list) equals the statement's timeline, monotonicity, offset shift, redundant-BPM "
                "invariance - the real engine against an exact-rational evaluation of the statement on every small configuration, in 12 parallel slices.")
-UNITS = [TagOrder(), TaggedLt(), TimeUntil(), Advance(), Lookup("time_at"), Lookup("bpm_at")]
+UNITS = [TagOrder(), TaggedLt(), TimeUntil(), Advance(), Lookup("time_at"), Lookup("bpm_at"), CoalesceWarps()]
 BOUNDED = [EngineVsStatement("time_at", k) for k in range(EngineVsStatement.PARTS)]
 witness_search = engine_witness(["time_at"])
